@@ -87,6 +87,8 @@ pub mod style_helpers;
 pub mod tree;
 #[macro_use]
 pub mod util;
+#[cfg(taffy_verif)]
+pub mod verif_hooks;
 
 mod readme_doctest {
     #![doc = include_str!("../README.md")]
